@@ -165,8 +165,16 @@ fn edit_tag(tag: &mut Vec<u8>, ed: &J) {
     }
 }
 
-/// Apply one request to the real code. Returns (resp, applicable)
+/// Apply one request to the real code (None = not applicable in this state); a panic inside the
+/// code under test is data
 fn apply(s: &mut Session, r: &J) -> Option<J> {
+    match catch(|| apply_inner(s, r)) {
+        Ok(x) => x,
+        Err(p) => Some(json!({"ok": false, "aux": 0, "panic": p})),
+    }
+}
+
+fn apply_inner(s: &mut Session, r: &J) -> Option<J> {
     let op = r["op"].as_str().unwrap_or("");
     if op == "NewNonce" {
         s.new_nonce();
